@@ -997,6 +997,17 @@ class PostStage:
 
                 base = api[4:] if srt else api
                 mark = sess.a.inbox_mark()
+                if srt and phase == "first":
+                    # EXT_INFO may follow NEWKEYS directly: deliver the mutated one *before* the call
+                    # starts, and only call auth_* if the transport survived it (a ServiceRequestingTransport
+                    # whose link dies before SERVICE_ACCEPT never returns from auth_* -- C13, not judged here)
+                    tm = (g.t_service("accept")[:1] + g.t_ext_info())[tm_i]
+                    pl = g.mutants(tm, rng)[li][1]
+                    ctx.count("inj.auth-api.C." + family(tm.name))
+                    if not (sess.send(label, pl) and sess.send("service-accept/valid-unsolicited", accept_valid)):
+                        ctx.case(desc)
+                        sess.finish(self.judge, desc, "auth-api")
+                        continue
                 if base == "auth_password":
                     th = sess.api(api, v.auth_password, "u", "pw")
                 elif base.startswith("auth_publickey"):
@@ -1009,8 +1020,13 @@ class PostStage:
                     th = sess.api(api, v.auth_none, "u")
                 ctx.case(desc, sample=dict(stage="auth-api", api=api, phase=phase, label=label)
                          if label.endswith("badutf8.0@0:methods") else None)
-                sess.wait_type((5,), mark, 5.0, th.done)
-                if phase == "first":
+                if not (srt and phase == "first"):
+                    sess.wait_type((5,), mark, 5.0, th.done)
+                if srt and phase == "first":
+                    sess.wait_type((50,), mark, 3.0, th.done)
+                    if not th.done.is_set():
+                        sess.send("userauth-failure/valid", g.payload(reps[0]))
+                elif phase == "first":
                     tm = (g.t_service("accept")[:1] + g.t_ext_info())[tm_i]
                     pl = g.mutants(tm, rng)[li][1]
                     ctx.count("inj.auth-api.C." + family(tm.name))
